@@ -856,7 +856,9 @@ pub async fn process_multiple_changes(
                         },
                         None => false,
                     },
-                    None => seen.contains_key(&version),
+                    // no seqs: an empty changeset, a claim about the whole version. A chunk of
+                    // the version seen in this batch says nothing about the rest of it.
+                    None => matches!(seen.get(&version), Some(None)),
                 }) {
                     continue;
                 }
